@@ -509,6 +509,35 @@ class Interp:
             self._new(regs, c, a.model * v, a.q, "scale", ins, "arith.scale")
             self.compare("arith.scale.operand", a, "operand after scale")
 
+    def i_normalize(self, ins):
+        """normalize(kind) of a copy: 'mps_only' normalises the tensors and keeps the prefactor, 'mps_and_coeff' also reduces the
+        prefactor to its phase, 'mps_norm_to_coeff' moves the norm into the prefactor (same represented state)"""
+        regs = self.S if ins.get("on", "S") == "S" else self.M
+        a = self.pick(regs, ins["a"])
+        if a is None or len(regs) > 12:
+            return
+        kind = ["mps_only", "mps_and_coeff", "mps_norm_to_coeff"][ins["kind"] % 3]
+        t = tensors_dense(a.obj)
+        nt = np.linalg.norm(t)
+        c = complex(a.obj.coeff)
+        if not nt > 1e-8 or abs(c) < 1e-12:
+            return
+        ok, y = self.guard("arith.normalize.copy", a.obj.copy)
+        if not ok:
+            return
+        ok, ret = self.guard(f"arith.normalize.{kind}", y.normalize, kind)
+        if not ok:
+            return
+        if kind == "mps_only":
+            ref = t / nt * c
+        elif kind == "mps_and_coeff":
+            ref = t / nt * (c / abs(c))
+        else:
+            ref = t * c
+        self.r.classes.append(f"arith.normalize.{kind}")
+        self.r.check(f"arith.normalize.{kind}.returns_self", ret is y, "normalize() did not return the object it works on")
+        self._new(regs, y, ref, a.q, "normalize", ins, f"arith.normalize.{kind}")
+
     def i_coeff(self, ins):
         """multiply the scalar prefactor of a state (public attribute used by evolution)"""
         a = self.pick(self.S if ins.get("on", "S") == "S" else self.M, ins["a"])
